@@ -376,6 +376,9 @@ class PeriodicTask:
         self.serial = len(bus.tasks)
 
     def stop(self):
+        if self.stopped:
+            # like python-can's socketcan backend: stopping a task that is not running is an error
+            raise self.bus._can.CanOperationError("the cyclic task was already stopped")
         self.stopped = True
 
     def view(self):
